@@ -10,7 +10,7 @@ SPEC = {
                 rule="every single fault and every ordered pair of faults (replace by 11 garbage values / delete / add key) on a valid input of a "
                      "nested+defaulted+optional+aliased dataclass family x forbid_extra_keys x mixin/plain, plus non-mappings; plus every holder class "
                      "of the depth-1 grammar x 43 foreign inputs; plus random dataclasses with mutated wire forms (trace validation)"),
-    "C07": dict(module="MC_C07", clauses={"decode", "decode-accepts", "decode-rejects", "error-kind", "error-detail", "shared-factory", "build"},
+    "C07": dict(module="MC_C07", clauses={"decode", "decode-accepts", "decode-rejects", "error-kind", "error-detail", "shared-factory", "build", "decode-format"},
                 rule="every well-formed layout of <= MaxLen fields over 9 field kinds (required/default/factory/Optional/None-default/kw_only/init=False), "
                      "flat, split over base+subclass, with overridden default, x every absent/value/null assignment of the keys; factory freshness by identity"),
     "C08": dict(module="MC_C08", clauses={"wire", "encode-raises", "build"},
